@@ -413,7 +413,8 @@ def write_trig(rows, flags=frozenset()):
 # RDF/XML
 
 XML_FLAGS = ["nodeid-all", "nested", "property-attributes", "typed-node", "parse-resource", "parse-collection", "lang-inherit", "char-refs", "cdata",
-             "default-ns", "xml-base", "rdf-id", "single-description", "rdf-li", "entity-decl"]
+             "default-ns", "xml-base", "rdf-id", "single-description", "rdf-li", "entity-decl", "no-xml-decl", "xml-comments", "indent", "no-rdf-root",
+             "single-quote-decls"]
 
 
 def xml_escape(s, flags, attr=False):
@@ -503,7 +504,9 @@ def write_rdfxml(rows, flags=frozenset()):
     used_ids = set()
 
     def lit_elem(p, o, inherited_lang=None):
-        q = qname(p[1])
+        return lit_elem_q(qname(p[1]), o, inherited_lang)
+
+    def lit_elem_q(q, o, inherited_lang=None):
         attrs = ""
         if o[3] and o[3] != inherited_lang:
             attrs += ' xml:lang="%s"' % o[3]
@@ -542,8 +545,22 @@ def write_rdfxml(rows, flags=frozenset()):
         props = []
         pattrs = ""
         seen_pa = set()
+        li = {}
+        if "rdf-li" in flags:
+            # rdf:li stands for rdf:_1, rdf:_2, ... in document order within one node element
+            ns_ = sorted(int(t[1][1][len(RDF) + 1:]) for t in ts if re.match(r"^_[1-9][0-9]*$", t[1][1][len(RDF):]) and t[1][1].startswith(RDF))
+            if ns_ and ns_ == list(range(1, len(ns_) + 1)):
+                mem = sorted((t for t in ts if t[1][1].startswith(RDF + "_")), key=lambda t: int(t[1][1][len(RDF) + 1:]))
+                ts = [t for t in ts if t not in mem] + mem
+                li = {t: True for t in mem}
         for t in ts:
             p, o = t[1], t[2]
+            if t in li and o[0] == "L":
+                props.append(lit_elem_q("rdf:li", o, lang))
+                continue
+            if t in li:
+                props.append("<rdf:li %s/>" % resource(o))
+                continue
             if "property-attributes" in flags and o[0] == "L" and not o[2] and (o[3] == lang or (not o[3] and not lang)) and p not in seen_pa \
                     and sum(1 for x in ts if x[1] == p) == 1 and p[1] != RDF + "type":
                 seen_pa.add(p)
@@ -578,6 +595,13 @@ def write_rdfxml(rows, flags=frozenset()):
                 props.append("<%s>%s</%s>" % (q, node(o, depth + 1, nested_from=s), q))
                 continue
             props.append("<%s %s/>" % (q, resource(o)))
+        glue = ""
+        if "indent" in flags:
+            glue = "\n    "  # white space between property elements is not content
+        if "xml-comments" in flags:
+            glue += "<!-- between <properties> & \"such\" -->"
+        if glue and props:
+            return "<%s%s%s>%s%s%s</%s>" % (tag, attrs, pattrs, glue, glue.join(props), glue, tag)
         return "<%s%s%s>%s</%s>" % (tag, attrs, pattrs, "".join(props), tag)
 
     def is_list(c):
@@ -621,17 +645,28 @@ def write_rdfxml(rows, flags=frozenset()):
         decls += ' xmlns="%s"' % default_ns
     if base:
         decls += ' xml:base="%s"' % base
-    head = '<?xml version="1.0" encoding="utf-8"?>\n'
+    if "single-quote-decls" in flags:
+        decls = re.sub(r'="([^"\']*)"', r"='\1'", decls)
+    head = "" if "no-xml-decl" in flags else '<?xml version="1.0" encoding="utf-8"?>\n'
     if "entity-decl" in flags:
         head += '<!DOCTYPE rdf:RDF [ <!ENTITY ex "%s"> ]>\n' % EX
         body = [b.replace('="%s' % EX, '="&ex;') for b in body]
+    if "xml-comments" in flags:
+        head += "<!-- a comment before the root -->\n<?some-pi with data?>\n"
+        body = ["<!-- comment -->" + b for b in body]
+    if "no-rdf-root" in flags and len(body) == 1 and "entity-decl" not in flags and "xml-comments" not in flags:
+        # "rdf:RDF is optional if there is only one top-level node element" (RDF/XML 2.6 / grammar 7.2.8 doc)
+        m = re.match(r"^<([^\s>/]+)", body[0])
+        return head + body[0][:m.end()] + decls + body[0][m.end():] + "\n"
     return head + "<rdf:RDF%s>\n%s\n</rdf:RDF>\n" % (decls, "\n".join(body))
 
 
 # ---------------------------------------------------------------------------------------------
 # JSON-LD
 
-JSONLD_FLAGS = ["context-prefix", "vocab", "base", "type-coercion", "language-default", "list", "nested", "graph-wrapper", "native", "type-keyword", "set-array"]
+JSONLD_FLAGS = ["context-prefix", "vocab", "base", "type-coercion", "language-default", "list", "nested", "graph-wrapper", "native", "type-keyword", "set-array",
+                "alias", "context-array", "null-noise", "unmapped-keys", "reverse", "value-objects", "container-list", "datatype-coercion", "anonymous"]
+ALIASES = {"@id": "id", "@type": "type", "@value": "value", "@language": "lang", "@graph": "graph", "@list": "list", "@reverse": "rev"}
 
 
 def write_jsonld(rows, flags=frozenset(), dataset=False):
@@ -683,9 +718,17 @@ def write_jsonld(rows, flags=frozenset(), dataset=False):
             return {"@value": lex, "@type": compact_iri(dt)}
         if dt == XSD + "string":
             return {"@value": lex, "@type": XSD + "string"} if "language-default" in flags else {"@value": lex, "@type": XSD + "string"}
-        if "language-default" in flags:
+        if "language-default" in flags or "value-objects" in flags:
             return {"@value": lex}
         return lex
+
+    referenced = {x for r in rows for x in (r[2], r[3] if len(r) > 3 else None) if x is not None and x[0] == "B"}
+    _subject_graphs = {}
+    for r in rows:
+        if r[0][0] == "B":
+            _subject_graphs.setdefault(r[0], set()).add(r[3] if len(r) > 3 else None)
+    referenced |= {b for b, gs in _subject_graphs.items() if len(gs) > 1}  # the same node described in two graphs needs its label
+    dt_terms = {}
 
     def graph_nodes(triples):
         triples = sorted(triples, key=repr)
@@ -709,6 +752,12 @@ def write_jsonld(rows, flags=frozenset(), dataset=False):
 
         def build(s, depth=0):
             node = {"@id": node_id(s)}
+            if "anonymous" in flags and s[0] == "B" and s not in referenced:
+                node = {}  # a node object without @id denotes a fresh blank node
+            if "null-noise" in flags:
+                node["http://ex.org/ignored"] = None
+            if "unmapped-keys" in flags and "vocab" not in flags:
+                node["not-an-iri-or-term"] = "dropped: the key does not expand to an absolute IRI"
             for t in subj_of.get(s, []):
                 if t in consumed:
                     continue
@@ -727,6 +776,11 @@ def write_jsonld(rows, flags=frozenset(), dataset=False):
                         c = [x[2] for x in ts if x[1][1] == RDF + "rest"][0]
                     if not any(i[0] == "B" and i in subj_of for i in items) and not any(x in consumed for x in cells):
                         consumed.update(cells)
+                        if "container-list" in flags and sum(1 for x in subj_of[s] if x[1] == p) == 1:
+                            term = "lst_" + re.sub(r"[^A-Za-z0-9]", "_", p[1])[-10:]
+                            ctx[term] = {"@id": p[1], "@container": "@list"}
+                            node[term] = [value(i, None) for i in items]  # (kept an array: the container makes it one list)
+                            continue
                         v = {"@list": [value(i, None) for i in items]}
                         node.setdefault(pkey, []).append(v)
                         continue
@@ -737,21 +791,32 @@ def write_jsonld(rows, flags=frozenset(), dataset=False):
                     coerced[term] = True
                     node.setdefault(term, []).append(node_id(o))
                     continue
+                if "datatype-coercion" in flags and o[0] == "L" and o[2] and o[2] != XSD + "string" and not o[3]:
+                    term = dt_terms.setdefault((p[1], o[2]), "dt%d" % len(dt_terms))
+                    ctx[term] = {"@id": p[1], "@type": o[2]}
+                    node.setdefault(term, []).append(o[1])
+                    continue
+                if "reverse" in flags and o[0] == "I" and p[1] != RDF + "type" and depth == 0 and not (s[0] == "B" and "anonymous" in flags):
+                    reverse_nodes.append({"@id": node_id(o), "@reverse": {pkey: [{"@id": node_id(s)}]}})
+                    continue
                 if "nested" in flags and o[0] == "B" and refs.get(o, 0) == 1 and o in subj_of and o != s and depth < 3 and not any(x in consumed for x in subj_of[o]):
                     node.setdefault(pkey, []).append(build(o, depth + 1))
                     continue
                 node.setdefault(pkey, []).append(value(o, pkey))
             if "set-array" not in flags:
                 for k2, v in list(node.items()):
-                    if isinstance(v, list) and len(v) == 1 and k2 != "@type":
+                    if isinstance(v, list) and len(v) == 1 and k2 != "@type" and not (isinstance(ctx.get(k2), dict) and ctx[k2].get("@container") == "@list"):
                         node[k2] = v[0]
             return node
 
         out = []
+        reverse_nodes = []
         for s in sorted(subj_of, key=lambda s: (refs.get(s, 0), repr(s))):
             if any(t not in consumed for t in subj_of[s]):
-                out.append(build(s))
-        return out
+                n = build(s)
+                if set(n) - {"@id", "http://ex.org/ignored", "not-an-iri-or-term"} or s not in referenced:
+                    out.append(n)
+        return out + reverse_nodes
 
     by_g = {}
     for r in rows:
@@ -764,10 +829,23 @@ def write_jsonld(rows, flags=frozenset(), dataset=False):
             docs += nodes
         else:
             docs.append({"@id": node_id(g), "@graph": nodes})
+    if "alias" in flags:
+        def rename(x):
+            if isinstance(x, dict):
+                return {ALIASES.get(k, k): rename(v) for k, v in x.items()}
+            if isinstance(x, list):
+                return [rename(v) for v in x]
+            return x
+        docs = rename(docs)
+        for k, a in ALIASES.items():
+            ctx[a] = k
     if ctx or "graph-wrapper" in flags:
-        doc = {"@graph": docs}
+        doc = {ALIASES["@graph"] if "alias" in flags else "@graph": docs}
         if ctx:
             doc["@context"] = ctx
+            if "context-array" in flags:  # an array of contexts is processed in order
+                ks = sorted(ctx)
+                doc["@context"] = [{k: ctx[k] for k in ks[:len(ks) // 2]}, {k: ctx[k] for k in ks[len(ks) // 2:]}]
     else:
         doc = docs
     return json.dumps(doc, ensure_ascii=("native" in flags), indent=1)
